@@ -61,6 +61,10 @@ def run(res, tier):
         res.floor("WR-2", "C09 shape functions with column accessors", n2, 40)
         ns = sib(p, res)
         res.floor("SIB-2", "sibling operation groups", ns, 6)
+        from .c11 import wr8
+        res.rule("WR-8", "inside a for_each over inputs the first operation on a loop-invariant result column is not an overwrite-type operation (ring merging must keep every part)")
+        n8 = wr8(p, res)
+        res.floor("WR-8", "for_each bodies operating on a result column", n8, 1)
         from . import sign
         res.rule("SIGN-1", "in res = a - b a write from `b` alone negates, a write from `a` alone does not, a write from both is a subtraction with a before b (add family: no negation, both -> add)")
         ns = sign.check(p, res, "SIGN-1", ("poulpy_cpu_ref::reference",))
